@@ -233,12 +233,17 @@ func travSpecs() []travSpec {
 }
 
 func findFn(p *Program, key string) *ssa.Function {
+	var synth *ssa.Function
 	for _, fn := range p.ModFuncs() {
 		if p.FnKey(fn) == key {
+			if fn.Synthetic != "" {
+				synth = fn // a compiler-made wrapper: only if nothing declared carries the key
+				continue
+			}
 			return fn
 		}
 	}
-	return nil
+	return synth
 }
 
 func runTrav(c *Ctx) {
